@@ -9,7 +9,7 @@ Spec: `DigestSpec.digest` on the cyclic word / `DigestSpec.digestLin` on a linea
 (Spec/Digest.lean).  `Driver.C10.enzymeOf name g` is the `clone.Enzyme` value for a geometry `g`
 (site, reverse-complement site as literal regular expressions, skip, overhang length).
 `wfLayout g s` is the property's quantifier: non-palindromic upper-case ACGT site that fits the
-plasmid, overhang ≥ 1, site occurrences (either orientation) do not overlap one another around
+plasmid, any skip and any overhang length (0 = blunt cutter), site occurrences (either orientation) do not overlap one another around
 the circle, paired cuts at least two overhang lengths apart.
 -/
 namespace PolyVerif.Props.C10
@@ -30,7 +30,7 @@ def triples : Outcome (List Fragment) → Option (List (Str × Str × Str))
 (site, its reverse complement, skip, overhang length). -/
 theorem builtin_pinned : ∀ ng ∈ builtin, baseEnzymes.lookup ng.1 = some (enzymeOf ng.1 ng.2) := by decide
 
-/-- the built-in geometries are well-formed (non-palindromic upper-case ACGT site, overhang ≥ 1) -/
+/-- the built-in geometries are well-formed (non-empty, non-palindromic upper-case ACGT site) -/
 theorem builtin_wf : ∀ ng ∈ builtin, wfGeometry ng.2 = true := by decide
 
 /-- CutWithEnzymeByName is CutWithEnzyme with the pinned geometry. -/
@@ -198,6 +198,20 @@ example : triples (cutWithEnzyme (Spec.rotl 5 demo) true true (enzymeOf "BsaI" (
     some [("CCCC".toList, "ACGTTGCAAT".toList, "GGGG".toList)] := by decide
 example : triples (cutWithEnzyme demo false true (enzymeOf "BsaI" (ofRebase "GGTCTC" 1 5))) =
     some [("CCCC".toList, "ACGTTGCAAT".toList, "GGGG".toList)] := by decide
+
+/-- a blunt cutter (MlyI `GAGTC(5/5)`: skip 5, overhang 0) whose forward and backward-pointing sites cut
+at the SAME place: the layout is inside the quantifier, the stretch between the two cuts is empty, and
+the code returns that empty fragment at every origin (here rotations 0 and 4: the forward site
+straddles the origin) and for the linear part -/
+def blunt : Str := "AAGAGTCAAAAATTTTTGACTCAATTTAAATT".toList
+
+example : wfLayout (ofRebase "GAGTC" 5 5) blunt = true := by decide
+example : digest (ofRebase "GAGTC" 5 5) blunt = [([], [], [])] := by decide
+example : triples (cutWithEnzyme blunt true true (enzymeOf "" (ofRebase "GAGTC" 5 5))) = some [([], [], [])] := by decide
+example : triples (cutWithEnzyme (Spec.rotl 4 blunt) true true (enzymeOf "" (ofRebase "GAGTC" 5 5))) = some [([], [], [])] := by
+  decide
+example : wfLinear (ofRebase "GAGTC" 5 5) blunt = true ∧
+    triples (cutWithEnzyme blunt false true (enzymeOf "" (ofRebase "GAGTC" 5 5))) = some [([], [], [])] := by decide
 
 /-- Regression (former finding `C10-linear-end-reverse-site`, repaired in /repo by 2839bce): on the
 LINEAR part `AAGGACAAAAATTTTTGTCC` with site GGAC, skip 0, overhang 5 — a backward-pointing site in
